@@ -226,12 +226,12 @@ theorem inplace_ok (cfg : Cfg) {w w' : World α} {c n' : Nat} (hv : VecOK cfg w 
 /-- re-establishing the invariants after container `c` moved into the freshly allocated block `w.next`:
     the new block holds a live prefix of `n'` elements and a raw suffix, the old buffer was wiped (released when it
     was a heap block, all raw when it was the inline buffer), every other block is untouched -/
-theorem realloc_ok (cfg : Cfg) {w w' : World α} {c ncap n' : Nat} (hv : VecOK cfg w c) (hl : Ledger w)
+theorem realloc_ok_alloc (cfg : Cfg) {w w' : World α} {c ncap n' : Nat} (a' : Nat) (hv : VecOK cfg w c) (hl : Ledger w)
     (hN : (w.hdr c).N < ncap) (hmax : ncap ≤ cfg.maxSize) (hn : n' ≤ ncap)
-    (hh : w'.hdr = upd w.hdr c { w.hdr c with data := w.next, cap := ncap, size := n' })
+    (hh : w'.hdr = upd w.hdr c { w.hdr c with data := w.next, cap := ncap, size := n', alloc := a' })
     (hnext : w'.next = w.next + 2) (hntmp : w'.ntmp = w.ntmp)
     (hlive : w'.live = if (w.hdr c).N < (w.hdr c).cap then (w.next :: w.live).erase (w.hdr c).data else w.next :: w.live)
-    (howner : w'.owner = upd w.owner w.next (w.hdr c).alloc)
+    (howner : w'.owner = upd w.owner w.next a')
     (hlen : (w'.mem w.next).length = ncap)
     (hobj : ∀ i, i < n' → IsObj w' w.next i)
     (hraw : ∀ i, n' ≤ i → i < ncap → IsRaw w' w.next i)
@@ -239,7 +239,7 @@ theorem realloc_ok (cfg : Cfg) {w w' : World α} {c ncap n' : Nat} (hv : VecOK c
             else (w'.mem (w.hdr c).data).length = (w.hdr c).cap ∧ ∀ i, i < (w.hdr c).cap → IsRaw w' (w.hdr c).data i)
     (hother : ∀ b, b ≠ (w.hdr c).data → b ≠ w.next → w'.mem b = w.mem b) :
     VecOK cfg w' c ∧ Ledger w' ∧ Frame1 w w' c := by
-  have hhc : w'.hdr c = { w.hdr c with data := w.next, cap := ncap, size := n' } := by rw [hh]; simp
+  have hhc : w'.hdr c = { w.hdr c with data := w.next, cap := ncap, size := n', alloc := a' } := by rw [hh]; simp
   have hnext_ok := hl.next_ok
   have hinl_lt := hv.inl_lt
   have hnb_inl : w.next ≠ (w.hdr c).inl := by omega
@@ -382,12 +382,28 @@ theorem realloc_ok (cfg : Cfg) {w w' : World α} {c ncap n' : Nat} (hv : VecOK c
 
 /-! ### the common shape of every reallocating path: allocate, build in the new block, then reset_data or roll back -/
 
+/-- … with the container's own allocator -/
+theorem realloc_ok (cfg : Cfg) {w w' : World α} {c ncap n' : Nat} (hv : VecOK cfg w c) (hl : Ledger w)
+    (hN : (w.hdr c).N < ncap) (hmax : ncap ≤ cfg.maxSize) (hn : n' ≤ ncap)
+    (hh : w'.hdr = upd w.hdr c { w.hdr c with data := w.next, cap := ncap, size := n' })
+    (hnext : w'.next = w.next + 2) (hntmp : w'.ntmp = w.ntmp)
+    (hlive : w'.live = if (w.hdr c).N < (w.hdr c).cap then (w.next :: w.live).erase (w.hdr c).data else w.next :: w.live)
+    (howner : w'.owner = upd w.owner w.next (w.hdr c).alloc)
+    (hlen : (w'.mem w.next).length = ncap)
+    (hobj : ∀ i, i < n' → IsObj w' w.next i)
+    (hraw : ∀ i, n' ≤ i → i < ncap → IsRaw w' w.next i)
+    (hold : if (w.hdr c).N < (w.hdr c).cap then w'.mem (w.hdr c).data = []
+            else (w'.mem (w.hdr c).data).length = (w.hdr c).cap ∧ ∀ i, i < (w.hdr c).cap → IsRaw w' (w.hdr c).data i)
+    (hother : ∀ b, b ≠ (w.hdr c).data → b ≠ w.next → w'.mem b = w.mem b) :
+    VecOK cfg w' c ∧ Ledger w' ∧ Frame1 w w' c :=
+  realloc_ok_alloc cfg (w.hdr c).alloc hv hl hN hmax hn hh hnext hntmp hlive howner hlen hobj hraw hold hother
+
 /-- state after `allocate` and some construction work in the new block `w.next`, before `reset_data`:
     the header of `c` is still the old one, its old buffer still holds `size` live objects -/
-structure Built (cfg : Cfg) (w w4 : World α) (c ncap : Nat) : Prop where
+structure BuiltA (cfg : Cfg) (w w4 : World α) (c ncap a : Nat) : Prop where
   hdr    : w4.hdr = w.hdr
   live   : w4.live = w.next :: w.live
-  owner  : w4.owner = upd w.owner w.next (w.hdr c).alloc
+  owner  : w4.owner = upd w.owner w.next a
   next   : w4.next = w.next + 2
   ntmp   : w4.ntmp = w.ntmp
   ub     : w4.ub = w.ub
@@ -395,6 +411,9 @@ structure Built (cfg : Cfg) (w w4 : World α) (c ncap : Nat) : Prop where
   lenOld : ∀ b, b ≠ w.next → (w4.mem b).length = (w.mem b).length
   objs   : ∀ i, i < (w.hdr c).size → IsObj w4 (w.hdr c).data i
   other  : ∀ (b i : Nat), b ≠ w.next → ¬ (b = (w.hdr c).data ∧ i < (w.hdr c).size) → (w4.mem b)[i]? = (w.mem b)[i]?
+
+/-- … the new block obtained from the container's own allocator -/
+abbrev Built (cfg : Cfg) (w w4 : World α) (c ncap : Nat) : Prop := BuiltA cfg w w4 c ncap (w.hdr c).alloc
 
 theorem VecOK.next_ne {cfg : Cfg} {w : World α} {c : Nat} (hv : VecOK cfg w c) (hl : Ledger w) :
     w.next ≠ (w.hdr c).data ∧ w.next ≠ (w.hdr c).inl := by
@@ -405,11 +424,11 @@ theorem VecOK.next_ne {cfg : Cfg} {w : World α} {c : Nat} (hv : VecOK cfg w c) 
     · have := (hv.data_odd hl hne).2.2; omega
   · omega
 
-theorem Built.of_alloc {cfg : Cfg} {w w2 : World α} {c ncap : Nat} (hv : VecOK cfg w c) (hl : Ledger w)
-    (hm : w2.mem = upd w.mem w.next (List.replicate ncap .raw)) (ho : w2.owner = upd w.owner w.next (w.hdr c).alloc)
+theorem BuiltA.of_alloc {cfg : Cfg} {w w2 : World α} {c ncap : Nat} (a : Nat) (hv : VecOK cfg w c) (hl : Ledger w)
+    (hm : w2.mem = upd w.mem w.next (List.replicate ncap .raw)) (ho : w2.owner = upd w.owner w.next a)
     (hlv : w2.live = w.next :: w.live) (hn : w2.next = w.next + 2) (hh : w2.hdr = w.hdr) (ht : w2.ntmp = w.ntmp)
     (hu : w2.ub = w.ub) :
-    Built cfg w w2 c ncap ∧ (∀ i, i < ncap → IsRaw w2 w.next i) ∧ (∀ b, b ≠ w.next → w2.mem b = w.mem b) := by
+    BuiltA cfg w w2 c ncap a ∧ (∀ i, i < ncap → IsRaw w2 w.next i) ∧ (∀ b, b ≠ w.next → w2.mem b = w.mem b) := by
   have hoth : ∀ b, b ≠ w.next → w2.mem b = w.mem b := fun b hb => by rw [hm, upd_other _ _ _ _ hb]
   refine ⟨⟨hh, hlv, ho, hn, ht, hu, by rw [hm]; simp, fun b hb => by rw [hoth b hb], ?_, ?_⟩, ?_, hoth⟩
   · intro i hi
@@ -418,23 +437,36 @@ theorem Built.of_alloc {cfg : Cfg} {w w2 : World α} {c ncap : Nat} (hv : VecOK 
   · intro b i hb _; rw [hoth b hb]
   · intro i hi; unfold IsRaw; rw [hm]; simp [hi]
 
-theorem Built.step {cfg : Cfg} {w w4 w5 : World α} {c ncap : Nat} (hb : Built cfg w w4 c ncap) (hc : Ctl w4 w5)
+theorem Built.of_alloc {cfg : Cfg} {w w2 : World α} {c ncap : Nat} (hv : VecOK cfg w c) (hl : Ledger w)
+    (hm : w2.mem = upd w.mem w.next (List.replicate ncap .raw)) (ho : w2.owner = upd w.owner w.next (w.hdr c).alloc)
+    (hlv : w2.live = w.next :: w.live) (hn : w2.next = w.next + 2) (hh : w2.hdr = w.hdr) (ht : w2.ntmp = w.ntmp)
+    (hu : w2.ub = w.ub) :
+    Built cfg w w2 c ncap ∧ (∀ i, i < ncap → IsRaw w2 w.next i) ∧ (∀ b, b ≠ w.next → w2.mem b = w.mem b) :=
+  BuiltA.of_alloc (w.hdr c).alloc hv hl hm ho hlv hn hh ht hu
+
+theorem BuiltA.step {cfg : Cfg} {w w4 w5 : World α} {c ncap a : Nat} (hb : BuiltA cfg w w4 c ncap a) (hc : Ctl w4 w5)
     (hobj : ∀ i, i < (w.hdr c).size → IsObj w5 (w.hdr c).data i)
     (hrest : ∀ (b i : Nat), b ≠ w.next → ¬ (b = (w.hdr c).data ∧ i < (w.hdr c).size) → (w5.mem b)[i]? = (w4.mem b)[i]?) :
-    Built cfg w w5 c ncap :=
+    BuiltA cfg w w5 c ncap a :=
   ⟨hc.hdr.trans hb.hdr, hc.live.trans hb.live, hc.owner.trans hb.owner, hc.next.trans hb.next, hc.ntmp.trans hb.ntmp,
    hc.ub.trans hb.ub, (hc.len _).trans hb.lenNew, fun b h => (hc.len b).trans (hb.lenOld b h), hobj,
    fun b i h1 h2 => (hrest b i h1 h2).trans (hb.other b i h1 h2)⟩
 
+theorem Built.step {cfg : Cfg} {w w4 w5 : World α} {c ncap : Nat} (hb : Built cfg w w4 c ncap) (hc : Ctl w4 w5)
+    (hobj : ∀ i, i < (w.hdr c).size → IsObj w5 (w.hdr c).data i)
+    (hrest : ∀ (b i : Nat), b ≠ w.next → ¬ (b = (w.hdr c).data ∧ i < (w.hdr c).size) → (w5.mem b)[i]? = (w4.mem b)[i]?) :
+    Built cfg w w5 c ncap :=
+  BuiltA.step hb hc hobj hrest
+
 /-- roll-back: the new block is all raw again and the old buffer is exactly as it was — deallocating the new block
     restores the world observably (strong guarantee) -/
-theorem abort_realloc {cfg : Cfg} {w w4 : World α} {c ncap : Nat} (hv : VecOK cfg w c) (hl : Ledger w)
-    (hb : Built cfg w w4 c ncap)
+theorem abort_realloc_alloc {cfg : Cfg} {w w4 : World α} {c ncap a : Nat} (hv : VecOK cfg w c) (hl : Ledger w)
+    (hb : BuiltA cfg w w4 c ncap a)
     (hexact : ∀ i, i < (w.hdr c).size → (w4.mem (w.hdr c).data)[i]? = (w.mem (w.hdr c).data)[i]?)
     (hrawNew : ∀ i, i < ncap → IsRaw w4 w.next i) :
-    ∃ w', deallocate (w.hdr c).alloc w.next ncap w4 = .ok () w' ∧ Strong w w' := by
+    ∃ w', deallocate a w.next ncap w4 = .ok () w' ∧ Strong w w' := by
   have hin : w.next ∈ w4.live := by rw [hb.live]; simp
-  have hown : w4.owner w.next = (w.hdr c).alloc := by rw [hb.owner]; simp
+  have hown : w4.owner w.next = a := by rw [hb.owner]; simp
   refine ⟨_, deallocate_run _ _ _ w4 hin hb.lenNew hrawNew hown, ?_⟩
   have hnotlive : w.next ∉ w.live := fun h => by have := (hl.live_ok _ h).2.2; omega
   have hmem : ∀ b, b ≠ w.next → w4.mem b = w.mem b := by
@@ -479,8 +511,86 @@ theorem abort_realloc {cfg : Cfg} {w w4 : World α} {c ncap : Nat} (hv : VecOK c
       rw [upd_other _ _ _ _ hbn, hmem b hbn]
       exact hl.tmpfresh b (by have : w4.ntmp = w.ntmp := hb.ntmp; rw [← this]; exact h1) h2
 
+theorem abort_realloc {cfg : Cfg} {w w4 : World α} {c ncap : Nat} (hv : VecOK cfg w c) (hl : Ledger w)
+    (hb : Built cfg w w4 c ncap)
+    (hexact : ∀ i, i < (w.hdr c).size → (w4.mem (w.hdr c).data)[i]? = (w.mem (w.hdr c).data)[i]?)
+    (hrawNew : ∀ i, i < ncap → IsRaw w4 w.next i) :
+    ∃ w', deallocate (w.hdr c).alloc w.next ncap w4 = .ok () w' ∧ Strong w w' :=
+  abort_realloc_alloc hv hl hb hexact hrawNew
+
 /-- `reset_data` after the new block has been completed: the old buffer is wiped, the header switches to the new
     block, and all invariants hold again -/
+theorem finish_realloc_alloc {cfg : Cfg} {w w4 : World α} {c ncap n' a : Nat} (hv : VecOK cfg w c) (hl : Ledger w)
+    (hb : BuiltA cfg w w4 c ncap a)
+    (hN : (w.hdr c).N < ncap) (hmax : ncap ≤ cfg.maxSize) (hn : n' ≤ ncap)
+    (hobj : ∀ i, i < n' → IsObj w4 w.next i) (hraw : ∀ i, n' ≤ i → i < ncap → IsRaw w4 w.next i) :
+    ((resetData cfg c w.next ncap n' >>= fun _ => setAlloc c a) w4).sat
+      (fun _ w' => VecOK cfg w' c ∧ Ledger w' ∧ Frame1 w w' c ∧ w'.ub = w.ub ∧
+                   w'.hdr c = { w.hdr c with data := w.next, cap := ncap, size := n', alloc := a } ∧
+                   w'.mem w.next = w4.mem w.next ∧ w'.next = w.next + 2)
+      (fun _ _ => False) := by
+  obtain ⟨hnd, hni⟩ := hv.next_ne hl
+  -- the old container is still well-formed in w4
+  have hv4 : VecOK cfg w4 c := by
+    have hraws4 : ∀ (b i : Nat), b ≠ w.next → ¬ (b = (w.hdr c).data ∧ i < (w.hdr c).size) → (w4.mem b)[i]? = (w.mem b)[i]? := hb.other
+    refine hv.transfer (by rw [hb.hdr]) (hb.lenOld _ (Ne.symm hnd)) hb.objs ?_ ?_ ?_
+    · intro i h1 h2
+      exact isRaw_of_eq (hraws4 _ i (Ne.symm hnd) (by intro ⟨_, h⟩; omega)) (hv.raws i h1 h2)
+    · intro hne
+      obtain ⟨h1, h2⟩ := hv.heap hne
+      refine ⟨by rw [hb.live]; simp [h1], ?_⟩
+      rw [hb.owner, upd_other _ _ _ _ (Ne.symm hnd)]; exact h2
+    · intro hne
+      obtain ⟨h1, h2⟩ := hv.idle hne
+      refine ⟨by rw [hb.lenOld _ (Ne.symm hni)]; exact h1, fun i hi => ?_⟩
+      exact isRaw_of_eq (hraws4 _ i (Ne.symm hni) (by intro ⟨h, _⟩; exact hne h.symm)) (h2 i hi)
+  unfold resetData
+  rw [bind_assoc_run]
+  refine sat_bind (wipe_sat cfg c w4 hv4) (fun _ w5 hw => ?_) (fun _ _ h => h)
+  have htail : (setData c w.next ncap n' >>= fun _ => setAlloc c a) w5 =
+      .ok () { w5 with hdr := upd w5.hdr c { w5.hdr c with data := w.next, cap := ncap, size := n', alloc := a } } := by
+    show Res.ok () _ = Res.ok () _
+    congr 1
+    have : ∀ x, (upd (upd w5.hdr c { w5.hdr c with data := w.next, cap := ncap, size := n' }) c { (upd w5.hdr c { w5.hdr c with data := w.next, cap := ncap, size := n' } c) with alloc := a }) x = (upd w5.hdr c { w5.hdr c with data := w.next, cap := ncap, size := n', alloc := a }) x := by
+      intro x
+      by_cases hx : x = c
+      · subst hx; simp
+      · simp [upd_other _ _ _ _ hx]
+    have e := funext this
+    show ({ w5 with hdr := _ } : World α) = { w5 with hdr := _ }
+    rw [e]
+  rw [htail]
+  generalize hw6 : ({ w5 with hdr := upd w5.hdr c { w5.hdr c with data := w.next, cap := ncap, size := n', alloc := a } } : World α) = w6
+  have hm6 : w6.mem = w5.mem := by subst hw6; rfl
+  have hh4 : w4.hdr c = w.hdr c := by rw [hb.hdr]
+  have hdata5 := hw.data
+  rw [hh4] at hdata5
+  have hnew5 : w5.mem w.next = w4.mem w.next := hw.other _ (by rw [hh4]; exact hnd)
+  have hres := realloc_ok_alloc cfg (w := w) (w' := w6) (c := c) (ncap := ncap) (n' := n') a hv hl hN hmax hn
+    (by subst hw6; show upd w5.hdr c _ = _; rw [hw.hdr, hb.hdr])
+    (by subst hw6; show w5.next = _; rw [hw.next, hb.next])
+    (by subst hw6; show w5.ntmp = _; rw [hw.ntmp, hb.ntmp])
+    (by subst hw6; show w5.live = _; rw [hw.live, hh4, hb.live])
+    (by subst hw6; show w5.owner = _; rw [hw.owner, hb.owner])
+    (by rw [hm6, hnew5]; exact hb.lenNew)
+    (fun i hi => by unfold IsObj; rw [hm6, hnew5]; exact hobj i hi)
+    (fun i h1 h2 => by unfold IsRaw; rw [hm6, hnew5]; exact hraw i h1 h2)
+    (by
+      by_cases hcap : (w.hdr c).N < (w.hdr c).cap
+      · simp only [hcap, if_true] at hdata5 ⊢; rw [hm6]; exact hdata5
+      · simp only [hcap, if_false] at hdata5 ⊢
+        exact ⟨by rw [hm6]; exact hdata5.1, fun i hi => by unfold IsRaw; rw [hm6]; exact hdata5.2 i hi⟩)
+    (by
+      intro b h1 h2
+      rw [hm6, hw.other b (by rw [hh4]; exact h1)]
+      apply mem_eq_of_slots (hb.lenOld b h2)
+      intro i; exact hb.other b i h2 (by intro ⟨h, _⟩; exact h1 h))
+  obtain ⟨hvec, hled, hframe⟩ := hres
+  refine ⟨hvec, hled, hframe, ?_, ?_, by rw [hm6, hnew5], ?_⟩
+  · subst hw6; show w5.ub = _; rw [hw.ub, hb.ub]
+  · subst hw6; show upd w5.hdr c _ c = _; rw [upd_same, hw.hdr, hb.hdr]
+  · subst hw6; show w5.next = _; rw [hw.next, hb.next]
+
 theorem finish_realloc {cfg : Cfg} {w w4 : World α} {c ncap n' : Nat} (hv : VecOK cfg w c) (hl : Ledger w)
     (hb : Built cfg w w4 c ncap)
     (hN : (w.hdr c).N < ncap) (hmax : ncap ≤ cfg.maxSize) (hn : n' ≤ ncap)
